@@ -415,6 +415,9 @@ def _norm_loc(res):
 
 
 HPOS = history_positions()
+# positions off the import lines (completion there enumerates sys.path, which differs between processes: C15 compares
+# a server child with the harness process and uses only these)
+HPOS_CODE = {m: [p for p in ps if not MODS[m].splitlines()[p[0] - 1].startswith(('import ', 'from '))] for m, ps in HPOS.items()}
 
 
 def w_histories(job):
